@@ -208,8 +208,30 @@ def check_props(prop_id, allowed_axioms=frozenset(), extra_targets=()):
 
 
 # ---------------------------------------------------------------- harness ---
+def _alt_harness():
+    """When VERIF_REPO points at a scratch worktree (mutation testing), build a
+    private copy of the harness against it so that /repo-based runs are not
+    disturbed.  Returns the harness directory to use."""
+    global HARNESS
+    if os.path.realpath(REPO) == "/repo" or HARNESS != os.path.join(ROOT, "harness"):
+        return
+    if f'path = "{os.path.realpath(REPO)}"' in open(os.path.join(HARNESS, "Cargo.toml")).read():
+        return  # this copy of /verif was already pointed at the scratch worktree (tools/mutcheck.sh)
+    tag = hashlib.sha256(os.path.realpath(REPO).encode()).hexdigest()[:10]
+    alt = os.path.join(WORK, f"alt-harness-{tag}")
+    src = os.path.join(ROOT, "harness")
+    os.makedirs(alt, exist_ok=True)
+    sh(["rsync", "-a", "--delete", "--exclude", "target", "--exclude", "Cargo.lock", src + "/", alt + "/"], check=True)
+    for rel in ("Cargo.toml", ".cargo/config.toml"):
+        p = os.path.join(alt, rel)
+        s = open(p).read().replace('"/repo', '"' + os.path.realpath(REPO)).replace("/verif/harness/target", os.path.join(alt, "target"))
+        open(p, "w").write(s)
+    HARNESS = alt
+
+
 def harness_build(bins=None, timeout=2400):
-    with Lock("cargo"):
+    _alt_harness()
+    with Lock("cargo-" + hashlib.sha256(HARNESS.encode()).hexdigest()[:8]):
         lock_src = os.path.join(REPO, "Cargo.lock")
         lock_dst = os.path.join(HARNESS, "Cargo.lock")
         if not os.path.exists(lock_dst):
@@ -270,7 +292,13 @@ def known_findings(prop_id):
     if not os.path.exists(p):
         return []
     data = json.load(open(p))
-    return [e for e in data.get("findings", []) if e.get("property") == prop_id]
+    out = [e for e in data.get("findings", []) if e.get("property") == prop_id]
+    # fragments not yet merged into known_findings.json (tools/merge_findings.py)
+    frag = os.path.join(ROOT, "findings", f"{prop_id}.json")
+    if os.path.exists(frag):
+        ids = {e.get("id") for e in out}
+        out += [e for e in json.load(open(frag)).get("findings", []) if e.get("property") == prop_id and e.get("id") not in ids]
+    return out
 
 
 # --------------------------------------------------------------- evidence ---
